@@ -19,6 +19,7 @@ type KV struct {
 	// PartialBulk: when the crash hits a Bulk flush, the first BulkCut writes of that bulk are applied (torn bulk)
 	PartialBulk bool
 	BulkCut     int
+	TornApplied int // number of writes of the crashing bulk that were applied (0 unless PartialBulk tore a bulk)
 	Writes      []KVWrite // journal (for harness-side inspection)
 }
 
@@ -65,6 +66,7 @@ func (kv *KV) unit(ops []kvOp, bulk bool) {
 		if bulk && kv.PartialBulk {
 			for i := 0; i < len(ops) && i < kv.BulkCut; i++ {
 				kv.applyOne(ops[i])
+				kv.TornApplied++
 			}
 		}
 		kv.Crashed = true
